@@ -413,6 +413,9 @@ def describe(spec):
 def check_spec(spec, case):
     """Write the directory, load main.p8 with picotool, compare with the reference splice."""
     from pico8.game import file as pfile
+    from vlib import prelude
+    prelude.files()
+    prelude.lua()
     segs, incs = reference(spec)
     missing = [path for (_i, path, _sel, t) in incs if t is None]
     case = dict(case, files=describe(spec))
